@@ -3,6 +3,7 @@ package model
 import (
 	"fmt"
 	"math"
+	"reflect"
 	"strconv"
 	"strings"
 	"time"
@@ -35,6 +36,10 @@ type GenCfg struct {
 	ManyFields  bool     // allow structs with more than 8 fields
 	FullyPop    bool     // C13: no zero / white-space-only leaf, no empty slice, no nil pointer, nothing absent
 	NoAltRepr   bool     // render leaves with their exact Go type only
+	ForceCatch  bool     // make sure at least one primitive has Catch
+	NoDataTests bool     // struct / slice level tests are data-independent (pass / fail, no contains)
+	PClean      float64  // probability that a case gets no input perturbation at all (PVary/PAbsent/PJunk scaled to 0)
+	PLight      float64  // probability that the perturbation probabilities are scaled by 0.25
 }
 
 func DefaultCfg(mode string) GenCfg {
@@ -48,16 +53,23 @@ func DefaultCfg(mode string) GenCfg {
 
 // Gen holds per-case generator state: the witness value of every leaf.
 type Gen struct {
-	T   *rapid.T
-	Cfg GenCfg
-	wit map[*Node]Val
-	seq int
+	T     *rapid.T
+	Cfg   GenCfg
+	wit   map[*Node]Val
+	seq   int
+	scale float64 // scaling of the input perturbation probabilities for this case
 }
 
-func NewGen(t *rapid.T, cfg GenCfg) *Gen { return &Gen{T: t, Cfg: cfg, wit: map[*Node]Val{}} }
+func NewGen(t *rapid.T, cfg GenCfg) *Gen {
+	return &Gen{T: t, Cfg: cfg, wit: map[*Node]Val{}, scale: 1}
+}
 
 func (g *Gen) label(s string) string { g.seq++; return s + strconv.Itoa(g.seq) }
 
+// p is a fair biased coin built from single-bit draws (rapid's integer ranges
+// favour small values, which would distort probabilities): the unit interval is
+// bisected until the threshold 1-prob is decided. All-false bits (what rapid
+// shrinks towards) give false.
 func (g *Gen) p(prob float64, label string) bool {
 	if prob <= 0 {
 		return false
@@ -65,7 +77,24 @@ func (g *Gen) p(prob float64, label string) bool {
 	if prob >= 1 {
 		return true
 	}
-	return rapid.IntRange(0, 999).Draw(g.T, g.label(label)) >= 1000-int(prob*1000)
+	thr := 1 - prob
+	lo, hi := 0.0, 1.0
+	l := g.label(label)
+	for i := 0; i < 10; i++ {
+		mid := (lo + hi) / 2
+		if rapid.Bool().Draw(g.T, l) {
+			lo = mid
+		} else {
+			hi = mid
+		}
+		if hi <= thr {
+			return false
+		}
+		if lo >= thr {
+			return true
+		}
+	}
+	return false
 }
 
 func (g *Gen) intn(lo, hi int, label string) int {
@@ -246,10 +275,32 @@ func (g *Gen) genLeafTests(n *Node, w Val) {
 	for i := 0; i < k; i++ {
 		sat := g.p(g.Cfg.PTestSat, "sat")
 		ts, ok := g.genTest(n.Kind, w, sat, len(n.Tests))
+		if ok && sat && !holdsOn(n.Kind, ts, w) {
+			// construction check: a test meant to be satisfied by the witness must be
+			switch {
+			case ts.Name == "func":
+				ts.Str = "pass"
+			case n.Kind == KString && ts.Name != "min" && ts.Name != "max":
+				ts.Not = !ts.Not
+			default:
+				ok = false
+			}
+		}
 		if ok {
 			n.Tests = append(n.Tests, ts)
 		}
 	}
+}
+
+// holdsOn evaluates a test (with its negation) on a typed witness.
+func holdsOn(kind string, ts TestSpec, w Val) (ok bool) {
+	defer func() {
+		if recover() != nil {
+			ok = false
+		}
+	}()
+	r := EvalTest(kind, ts, reflect.ValueOf(w.Go()))
+	return r != ts.Not
 }
 
 func (g *Gen) funcTest(preds []string, idx int) TestSpec {
@@ -497,15 +548,23 @@ func (g *Gen) GenNode(depth int, root bool) *Node {
 	case kind == KSlice:
 		n.Elem = g.GenNode(depth-1, false)
 		g.genReq(n)
+		wl := g.intn(1, g.Cfg.MaxElems, "swl") // witness length
+		g.wit[n] = Int(wl)
 		k := g.intn(0, g.Cfg.MaxTests-1, "snt")
 		for i := 0; i < k; i++ {
 			switch name := pick(g, []string{"min", "max", "len", "contains", "func"}, "stn"); name {
 			case "func":
 				if !g.Cfg.NoFuncTests {
-					n.Tests = append(n.Tests, g.funcTest([]string{"hashEven", "lenEven", "pass", "fail"}, len(n.Tests)))
+					ft := g.funcTest([]string{"hashEven", "lenEven", "pass", "fail"}, len(n.Tests))
+					if g.p(g.Cfg.PTestSat, "ssat") {
+						ft.Str = "pass"
+					} else if g.Cfg.NoDataTests {
+						ft.Str = "fail"
+					}
+					n.Tests = append(n.Tests, ft)
 				}
 			case "contains":
-				if IsPrimitive(n.Elem.Kind) && n.Elem.Kind != KTime {
+				if IsPrimitive(n.Elem.Kind) && n.Elem.Kind != KTime && !g.Cfg.NoDataTests {
 					a := g.wit[n.Elem]
 					if g.p(0.3, "cvar") {
 						a = g.vary(n.Elem.Kind, a)
@@ -513,7 +572,19 @@ func (g *Gen) GenNode(depth int, root bool) *Node {
 					n.Tests = append(n.Tests, TestSpec{Name: "contains", Arg: &a, Opts: g.genOpts()})
 				}
 			default:
-				n.Tests = append(n.Tests, TestSpec{Name: name, N: g.intn(0, 3, "sn"), Opts: g.genOpts()})
+				N := g.intn(0, 3, "sn")
+				if g.p(g.Cfg.PTestSat, "slsat") {
+					d := g.intn(0, 2, "sld")
+					switch name {
+					case "min":
+						N = max(0, wl-d)
+					case "max":
+						N = wl + d
+					case "len":
+						N = wl
+					}
+				}
+				n.Tests = append(n.Tests, TestSpec{Name: name, N: N, Opts: g.genOpts()})
 			}
 		}
 		if IsPrimitive(n.Elem.Kind) && g.p(g.Cfg.PDefault, "sdef") {
@@ -560,7 +631,13 @@ func (g *Gen) GenNode(depth int, root bool) *Node {
 		}
 		if !g.Cfg.NoFuncTests {
 			for i, k := 0, g.intn(0, 2, "stt")-1; i < k; i++ {
-				n.Tests = append(n.Tests, g.funcTest([]string{"hashEven", "pass", "fail", "pass"}, len(n.Tests)))
+				ft := g.funcTest([]string{"hashEven", "pass", "fail", "pass"}, len(n.Tests))
+				if g.p(g.Cfg.PTestSat, "stsat") {
+					ft.Str = "pass"
+				} else if g.Cfg.NoDataTests {
+					ft.Str = "fail"
+				}
+				n.Tests = append(n.Tests, ft)
 			}
 		}
 		if g.p(g.Cfg.PPost, "stpost") {
@@ -579,6 +656,9 @@ func (g *Gen) GenNode(depth int, root bool) *Node {
 			g.wit[n] = Str(g.stringWitness())
 		} else {
 			g.wit[n] = Int(g.numWitness())
+		}
+		if g.p(g.Cfg.PTestSat, "csat") && !EvalFunc(n.CustomFn, reflect.ValueOf(g.wit[n].Go())) {
+			n.CustomFn = "pass"
 		}
 		o := g.genOpts()
 		if o.Code == "" {
@@ -620,7 +700,7 @@ func (g *Gen) pickKind(depth int, root bool) string {
 func (g *Gen) leafValue(n *Node) Val {
 	w := g.wit[n]
 	if n.Kind == KCustom {
-		if g.p(g.Cfg.PVary, "cv") {
+		if g.p(g.Cfg.PVary*g.scale, "cv") {
 			if n.CustomT == "string" {
 				return Str(g.stringWitness())
 			}
@@ -628,7 +708,7 @@ func (g *Gen) leafValue(n *Node) Val {
 		}
 		return w
 	}
-	if g.p(g.Cfg.PVary, "vary") {
+	if g.p(g.Cfg.PVary*g.scale, "vary") {
 		return g.fixFully(n.Kind, g.vary(n.Kind, w))
 	}
 	return w
@@ -637,7 +717,7 @@ func (g *Gen) leafValue(n *Node) Val {
 // GenTyped draws the typed logical value for a node. A nil Val means absent.
 // Struct values are maps keyed by schema key.
 func (g *Gen) GenTyped(n *Node) Val {
-	if !g.Cfg.FullyPop && n.Kind != KStruct && g.p(g.Cfg.PAbsent, "abs") {
+	if !g.Cfg.FullyPop && n.Kind != KStruct && g.p(g.Cfg.PAbsent*g.scale, "abs") {
 		return Nil()
 	}
 	switch {
@@ -648,7 +728,10 @@ func (g *Gen) GenTyped(n *Node) Val {
 		if g.Cfg.FullyPop {
 			lo = 1
 		}
-		k := g.intn(lo, g.Cfg.MaxElems, "sl")
+		k := int(mustInt(g.wit[n].S, 64))
+		if g.p(g.Cfg.PVary*g.scale, "slv") {
+			k = g.intn(lo, g.Cfg.MaxElems, "sl")
+		}
 		out := Val{T: "list", L: make([]Val, 0, k)}
 		for i := 0; i < k; i++ {
 			out.L = append(out.L, g.GenTyped(n.Elem))
@@ -711,7 +794,7 @@ func (g *Gen) Render(n *Node, v Val, pos string) (Val, bool) {
 			return Str("\u00a0"), true
 		}
 	}
-	if n.Kind != KSlice && n.Kind != KString && n.Kind != KCustom && n.Kind != KPtr && g.p(g.Cfg.PJunk, "junk") {
+	if n.Kind != KSlice && n.Kind != KString && n.Kind != KCustom && n.Kind != KPtr && g.p(g.Cfg.PJunk*g.scale, "junk") {
 		if j := junkFor(n.Kind); len(j) > 0 {
 			return pick(g, j, "jv"), true
 		}
@@ -890,7 +973,28 @@ type Case struct {
 func GenCase(t *rapid.T, cfg GenCfg) Case {
 	g := NewGen(t, cfg)
 	root := g.GenNode(cfg.MaxDepth, true)
+	if cfg.ForceCatch {
+		var prims []*Node
+		has := false
+		root.Walk(func(n *Node) {
+			if IsPrimitive(n.Kind) {
+				prims = append(prims, n)
+				has = has || n.Catch != nil
+			}
+		})
+		if !has && len(prims) > 0 {
+			n := pick(g, prims, "fc")
+			c := g.fixFully(n.Kind, g.vary(n.Kind, g.wit[n]))
+			n.Catch = &c
+		}
+	}
 	root.Number()
+	switch {
+	case g.p(cfg.PClean, "clean"):
+		g.scale = 0
+	case g.p(cfg.PLight, "light"):
+		g.scale = 0.25
+	}
 	typed := g.GenTyped(root)
 	c := Case{Root: root, Exec: Exec{Mode: cfg.Mode}}
 	if cfg.Mode == "parse" {
